@@ -77,10 +77,12 @@ pub fn dead_code_elimination(function: &il::Function) -> Result<il::Function, Er
             location
                 .instruction()
                 .map(|instruction| {
-                    !instruction
-                        .scalars_written()
-                        .map(|scalars_written| scalars_written.is_empty())
-                        .unwrap_or(false)
+                    // an intrinsic has effects beyond the scalars it declares
+                    !instruction.operation().is_intrinsic()
+                        && !instruction
+                            .scalars_written()
+                            .map(|scalars_written| scalars_written.is_empty())
+                            .unwrap_or(false)
                 })
                 .unwrap_or(false)
         })
